@@ -730,14 +730,29 @@ func (w *world) clientsWhere(f func(t *txn) bool) []int {
 	return out
 }
 
-func (w *world) doBegin(s Step) {
-	if w.shutdown {
+// doWriteTx is a generator macro, not an API of its own: begin read-write, and
+// if the lock was free, one put and commit. It makes "commit, somebody else
+// commits the same key, first handle commits again" likely enough to happen.
+func (w *world) doWriteTx(s Step) {
+	b := s
+	b.Op, b.RO, b.DeadlineMs = "begin", false, 0
+	t := w.doBegin(b)
+	if t == nil || t.state != stOpen || w.abort {
 		return
+	}
+	w.logf("put client %d (%s rw open) key=%s", t.client, t.path, keyOf(s.K))
+	w.useOpen(t, "put", keyOf(s.K), s.V)
+	w.finish(t, "commit", s.Keep)
+}
+
+func (w *world) doBegin(s Step) *txn {
+	if w.shutdown {
+		return nil
 	}
 	ci, ok := pick(w.clientsWhere(func(t *txn) bool { return t == nil || t.closed() }), s.C)
 	if !ok {
 		w.counters["skipped_begin"]++
-		return
+		return nil
 	}
 	t := &txn{client: ci, path: s.Path, ro: s.RO, conn: "unknown", overlay: map[string]*string{}}
 	if s.Peer {
@@ -817,6 +832,7 @@ func (w *world) doBegin(s Step) {
 		w.logf("  timed out: %v", call.err)
 	}
 	w.settle()
+	return t
 }
 
 // target selects the transaction of a use/finish step. Without Again: an open
@@ -832,6 +848,18 @@ func (w *world) target(s Step) *txn {
 			}
 		}
 		closed = append(closed, w.retired...)
+		if s.Op == "commit" {
+			// a repeated commit is most interesting on a handle whose first commit wrote something
+			var wrote []*txn
+			for _, t := range closed {
+				if t.rec.how == "commit" && len(t.overlay) > 0 {
+					wrote = append(wrote, t)
+				}
+			}
+			if len(wrote) > 0 {
+				closed = wrote
+			}
+		}
 		if n := len(closed); n > 0 {
 			return closed[((s.C%n)+n)%n]
 		}
@@ -1299,6 +1327,93 @@ func (w *world) probe(n int) {
 	w.checkState("probe")
 }
 
+// refinishAll: at the very end one more transaction overwrites every pool key,
+// and then EVERY handle that was ever finished (by its client or by the server)
+// is committed and rolled back once more. Each call must report the closed
+// error and the database must stay exactly as it is: a finish that takes
+// effect a second time puts an old value back.
+func (w *world) refinishAll() {
+	w.stepNo = len(w.c.Steps) + 1
+	rec := &beginRec{client: -1, path: "probe", how: "probe_open", entered: make(chan struct{})}
+	w.weng.mu.Lock()
+	rec.n = len(w.weng.recs)
+	w.weng.recs = append(w.weng.recs, rec)
+	w.weng.next = rec
+	w.weng.mu.Unlock()
+	done := make(chan struct{})
+	go func() {
+		defer close(done)
+		_, _ = w.weng.BeginTransaction(false)
+	}()
+	if !w.waitFor(func() bool {
+		select {
+		case <-done:
+			return true
+		default:
+			return false
+		}
+	}) {
+		w.blocked("the final overwriting transaction")
+	}
+	if rec.err != nil || rec.tx == nil {
+		w.diverge("final begin failed: %v", rec.err)
+	}
+	for i := 0; i < nKeys; i++ {
+		k, v := keyOf(i), fmt.Sprintf("z%d", i)
+		if i == nKeys-1 {
+			if err := rec.tx.Delete([]byte(k)); err != nil {
+				w.diverge("final delete: %v", err)
+			}
+			delete(w.committed, k)
+			continue
+		}
+		if err := rec.tx.Put([]byte(k), []byte(v)); err != nil {
+			w.diverge("final put: %v", err)
+		}
+		w.committed[k] = v
+	}
+	if err := rec.tx.Commit(); err != nil {
+		w.diverge("final commit: %v", err)
+	}
+	rec.how = "probe_done"
+	w.checkState("final_overwrite")
+	n := 0
+	for _, t := range w.all {
+		if !t.closed() || t.rec == nil || t.rec.ghost {
+			continue // (a late begin's transaction belongs to the goroutine inside Registry.Begin, not to a client)
+		}
+		for _, op := range []string{"commit", "rollback"} {
+			var err error
+			how := t.rec.how
+			switch {
+			case t.path == "svc" && t.id != "":
+				if op == "commit" {
+					_, err = w.svc.CommitTransaction(context.Background(), &pb.CommitTransactionRequest{TransactionId: t.id})
+				} else {
+					_, err = w.svc.RollbackTransaction(context.Background(), &pb.RollbackTransactionRequest{TransactionId: t.id})
+				}
+				if !isGoneErr(err) {
+					w.fail(fmt.Sprintf("repeated_finish_accepted:%s:svc:%s", op, how), "final %s through the service on the finished transaction %s (%s) returned %v", op, t.id, how, err)
+				}
+			case t.rec.acquired.Load() && t.rec.tx != nil:
+				if op == "commit" {
+					err = t.rec.tx.Commit()
+				} else {
+					err = t.rec.tx.Rollback()
+				}
+				if !isClosedErr(err) {
+					w.fail(fmt.Sprintf("repeated_finish_accepted:%s:%s:%s", op, t.path, how), "final %s on the finished transaction (%s) returned %v, want the closed error", op, how, err)
+				}
+			default:
+				continue
+			}
+			n++
+			w.checkState(op + ":repeat_after_" + how)
+		}
+	}
+	w.counters["final_refinish_calls"] += n
+}
+
 func (w *world) ghosts() []*beginRec {
 	w.weng.mu.Lock()
 	defer w.weng.mu.Unlock()
@@ -1321,6 +1436,8 @@ func (w *world) run() {
 		switch s.Op {
 		case "begin":
 			w.doBegin(s)
+		case "write_tx":
+			w.doWriteTx(s)
 		case "put", "del", "get", "scan":
 			w.doUse(s)
 		case "commit", "rollback":
@@ -1371,6 +1488,7 @@ func (w *world) run() {
 		}
 		w.probe(1)
 	}
+	w.refinishAll()
 	if d, ok := w.leak(false); ok {
 		// active, unreachable, yet nobody is blocked: cannot happen while begin takes the lock
 		w.counters["active_unreachable_tx_not_blocking"]++
